@@ -94,7 +94,16 @@ impl Property for C15Prop {
         let Ok(first) = Type::from_str(text) else {
             return fail("C15:parse", format!("generated type text `{text}` did not parse"));
         };
-        let model = Ty::from_real(&first);
+        // what the text means is read by the harness itself: the implementation's reader is under test
+        let Some(model) = Ty::parse(text) else {
+            return Verdict::Discard("type text outside the harness's own reader");
+        };
+        if Ty::from_real(&first) != model {
+            return fail(
+                "C15:parse-structure",
+                format!("`{text}` was read as {} (printed by the harness from the parsed structure)", Ty::from_real(&first).print()),
+            );
+        }
         if nested_union(&model, false) {
             stats.nontrivial(text);
             stats.label("nested union");
@@ -104,7 +113,7 @@ impl Property for C15Prop {
         }
         stats.label(&format!("shape {}", model.shape()));
         // several instances of the same type: different source orders, rebuilt with `|`
-        let mut instances: Vec<(String, Type)> = vec![("parsed".into(), first.clone())];
+        let mut instances: Vec<(String, Type)> = vec![("parsed".into(), first.clone()), ("built through the constructors".into(), model.construct())];
         for r in [rot, rot + 1, rot + 3] {
             let src = print_rot(&model, r);
             match Type::from_str(&src) {
